@@ -43,6 +43,9 @@ pub enum Op {
     /// a client encrypts a file for upload now and announces it with a later SendMsg of its own
     /// (the upload takes time: commits may be applied in between)
     MediaEncrypt { g: usize, tag: u32 },
+    /// key-package hygiene: the client deletes the private parts of every key package it has
+    /// published so far and publishes a fresh one
+    RotateKeyPackages,
     /// an admin encrypts a group image (format 2 = seed in image_key, 1 = legacy direct key) and
     /// publishes hash / key / nonce in the group data
     SetGroupImage { g: usize, seed: u32, format: u8 },
@@ -846,6 +849,21 @@ impl World {
                 Ok(ev) => Outcome::new("ok", format!("kp {}", &ev.id.to_hex()[..8])),
                 Err(e) => Outcome::new("err", e),
             },
+            Op::RotateKeyPackages => {
+                let evs = self.nodes[node].key_packages.clone();
+                let mut deleted = 0usize;
+                for ev in &evs {
+                    let r = with_mdk!(self.nodes[node].mdk(), m => m.parse_key_package(ev).and_then(|kp| m.delete_key_package_from_storage(&kp)));
+                    if r.is_ok() {
+                        deleted += 1;
+                    }
+                }
+                self.probe("key_packages_deleted_from_storage");
+                match self.nodes[node].publish_key_package() {
+                    Ok(ev) => Outcome::new("ok", format!("{deleted} key package(s) deleted, new kp {}", &ev.id.to_hex()[..8])),
+                    Err(e) => Outcome::new("err", e),
+                }
+            }
             Op::CreateGroup { members, admins, tag } => {
                 let kps = match self.kp_events_for(members) {
                     Ok(k) => k,
